@@ -9,6 +9,14 @@ From AP.Proofs Require Import NlvP TabEqP.
 Lemma N_pos_ltb n : (0 <? n)%N = negb (n =? 0)%N.
 Proof. destruct n; reflexivity. Qed.
 
+(* From here on generic in the IRI comparison (builder b47; see Proofs/EqualP.v) *)
+Module CcGP.
+Section IdRel.
+  Variable ideq : bytes -> bytes -> bool -> bool.
+  Local Notation cmp_one := (EqG.cmp_one ideq).
+  Local Notation comp_sem := (ItB.comp_sem ideq).
+  Local Notation raw_block_sem := (ItB.raw_block_sem ideq).
+
 Section Block.
   Variable rec : item -> item -> outcome bool.
 
@@ -104,3 +112,13 @@ Section Table.
     apply bytes_eqb_true in Hcal. subst x. rewrite Hg. apply (raw_block_tie rec (cc_self e)); assumption.
   Qed.
 End Table.
+End IdRel.
+End CcGP.
+
+Local Ltac inst L := first [ exact (L iri_eqb) | exact L ].
+Definition raw_block_tie := ltac:(inst CcGP.raw_block_tie).
+Definition gotype_eqb_eq := ltac:(inst CcGP.gotype_eqb_eq).
+Definition rawcmp_beq_eq := ltac:(inst CcGP.rawcmp_beq_eq).
+Notation lbeq2_map := CcGP.lbeq2_map.
+Definition callee_table_covers := ltac:(inst CcGP.callee_table_covers).
+Definition callee_table_tie := ltac:(inst CcGP.callee_table_tie).
